@@ -527,13 +527,15 @@ def main():
             chk.violation(probs[0][0], "; ".join(m for _, m in probs[:3]), {"config": cfg, "seed": s1, "other_seed": s2, "problems": probs[:6],
                                                                                "fingerprints": [a["fp"], b["fp"], c["fp"]]}, found_input=True)
     vals = common.coq_eval_many("C10", HEADER, exprs, shard=20, procs=2)
+    n_model = 0
     for v, (kind, want, cfg) in zip(vals, expect):
         if kind == "scan":
             if bool(v) != bool(want):
                 chk.violation("model-correspondence-scan", f"Model.Seeding.scan_ok = {v}, scan oracle = {want}", {"tags": tags, "correspondence": "harness/c10.py scan vs Model/Seeding.v"}, found_input=False)
         else:
             got = (list(v[0]), [list(r) for r in v[1]])
-            if got != (want[0], want[1]):
+            if got != (want[0], want[1]) and n_model < 2:
+                n_model += 1
                 chk.violation("model-correspondence-seed-plumbing", f"model generators/deliveries {str(got)[:300]} vs implementation {str(want)[:300]}",
                               {"config": cfg, "model": str(got), "impl": str(want), "correspondence": "harness/c10.py vs Model.Seeding.run"}, found_input=False)
     chk.coverage["evaluations"] = 3 * pairs + len(sites)
